@@ -63,3 +63,244 @@ fn c05_set_dev_notify() {
         assert!(after == if enable { 0 } else { 1 }, "C05: avail.flags does not match the requested setting");
     }
 }
+
+// ---------------------------------------------------------------------------
+// K<= bounded scenarios on the real code (SIZE = 4), written straight-line: generic history
+// interpreters with symbolic slice lengths / symbolic operation choice exhaust CBMC's memory (probed).
+// ---------------------------------------------------------------------------
+const HN: usize = 4;
+const BUF: usize = 4;
+
+unsafe fn dev_desc<const N: usize>(q: &VirtQueue<KHal, N>, i: usize) -> Descriptor {
+    unsafe { (*(q.desc.as_ptr() as *const [Descriptor; N]))[i].clone() }
+}
+fn paddr_of(b: &[u8]) -> u64 { b.as_ptr() as u64 + BOUNCE }
+
+fn set_start<const N: usize>(q: &mut VirtQueue<KHal, N>, start: u16) {
+    q.avail_idx = start;
+    q.last_used_idx = start;
+    unsafe {
+        (*q.avail.as_ptr()).idx.store(start, Ordering::Release);
+        (*q.used.as_ptr()).idx.store(start, Ordering::Release);
+    }
+}
+/// the device marks `token` used with the given length
+fn dev_complete<const N: usize>(q: &mut VirtQueue<KHal, N>, token: u16, len: u32) {
+    unsafe {
+        let u = q.used.as_ptr();
+        let uidx = (*u).idx.load(Ordering::Acquire);
+        let s = (uidx & (N as u16 - 1)) as usize;
+        (*u).ring[s].id = token as u32;
+        (*u).ring[s].len = len;
+        (*u).idx.store(uidx.wrapping_add(1), Ordering::Release);
+    }
+}
+/// C04 oracle over the recorded HAL calls since `from`: every unshare carries the device address share
+/// returned for that very buffer; returns the number of unshare calls
+fn unshares_match(from: usize) -> usize {
+    let mut unshared = 0;
+    let mut e = from;
+    while e < log_len() {
+        if let Ev::Unshare(paddr, v, _l, _d) = log_at(e) {
+            assert!(paddr == v as u64 + BOUNCE, "C04: unshare with a device address that share did not return for this buffer");
+            unshared += 1;
+        }
+        e += 1;
+    }
+    unshared
+}
+
+/// one chain [in, out] through its whole life
+fn life(indirect: bool, sym_start: bool) {
+    let event_idx: bool = kani::any();
+    let (mut q, _t) = mk_queue::<HN>(indirect, event_idx, false);
+    let start: u16 = if sym_start { kani::any() } else { 0xffff };
+    set_start(&mut q, start);
+    let a = [1u8; BUF];
+    let mut b = [0u8; BUF];
+    let (pa, pb) = (paddr_of(&a), paddr_of(&b));
+    let l0 = log_len();
+    let token = unsafe { q.add(&[&a], &mut [&mut b]) }.unwrap();
+    // C04: each buffer shared exactly once, true range, direction matching its role
+    let mut shares = 0;
+    let mut e = l0;
+    while e < log_len() {
+        if let Ev::Share(p, v, l, d) = log_at(e) {
+            if p == pa { assert!(v == a.as_ptr() as usize && l == BUF && d == 0, "C04: input shared with wrong range/direction"); }
+            else if p == pb { assert!(v == b.as_ptr() as usize && l == BUF && d == 1, "C04: output shared with wrong range/direction"); }
+            else { assert!(indirect && d == 0 && l == 32, "C04: unexpected share"); }
+            shares += 1;
+        }
+        e += 1;
+    }
+    assert!(shares == if indirect { 3 } else { 2 }, "C04: number of share calls");
+    unsafe {
+        // C01: the slot designated by the previous index holds the head; index advanced by one
+        assert!((*q.avail.as_ptr()).ring[(start & (HN as u16 - 1)) as usize] == token, "C01: ring slot designated by the previous index not filled");
+        assert!((*q.avail.as_ptr()).idx.load(Ordering::Acquire) == start.wrapping_add(1), "C01: available index not advanced by one");
+        // C01: what the device reaches from the head
+        let h = dev_desc(&q, token as usize);
+        let (d0, d1) = if indirect {
+            assert!(h.flags == DescFlags::INDIRECT && h.len == 32, "C01: indirect head malformed");
+            let tp = q.indirect_lists[token as usize].expect("C01: indirect chain without table");
+            assert!(h.addr == tp.as_ptr() as *const u8 as u64 + BOUNCE, "C04: table address is not its shared address");
+            let t = tp.as_ptr() as *const Descriptor;
+            ((*t).clone(), (*t.add(1)).clone())
+        } else {
+            assert!(h.flags == DescFlags::NEXT && (h.next as usize) < HN, "C01: first descriptor flags/next");
+            (h.clone(), dev_desc(&q, h.next as usize))
+        };
+        assert!(d0.addr == pa && d0.len as usize == BUF && d0.flags == DescFlags::NEXT, "C01: first element is not the caller's input buffer");
+        assert!(!indirect || d0.next == 1, "C01: indirect table next index");
+        assert!(d1.addr == pb && d1.len as usize == BUF && d1.flags == DescFlags::WRITE, "C01: second element is not the caller's output buffer");
+    }
+    assert!(q.num_used as usize == if indirect { 1 } else { 2 }, "C03: descriptor count");
+    // nothing ready yet
+    assert!(!q.can_pop() && q.peek_used().is_none(), "C03: can_pop with empty used ring");
+    let len: u32 = kani::any();
+    dev_complete(&mut q, token, len);
+    assert!(q.can_pop() && q.peek_used() == Some(token), "C03: peek_used");
+    let l1 = log_len();
+    let r = unsafe { q.pop_used(token, &[&a], &mut [&mut b]) };
+    assert!(r == Ok(len), "C03: byte count the device recorded not reported");
+    assert!(q.num_used == 0 && q.available_desc() == HN, "C03: descriptors not released");
+    assert!(q.last_used_idx == start.wrapping_add(1), "C03: last_used_idx");
+    assert!(unshares_match(l1) == if indirect { 3 } else { 2 }, "C04: number of unshare calls");
+    if event_idx {
+        let ue = unsafe { (*q.avail.as_ptr()).used_event.load(Ordering::Acquire) };
+        assert!(ue == q.last_used_idx, "C05: used_event not re-armed");
+    }
+    assert!(!q.can_pop(), "C03: completion can be consumed twice");
+}
+
+#[kani::proof]
+#[kani::unwind(9)]
+fn k_life_direct() { life(false, false); }
+#[kani::proof]
+#[kani::unwind(9)]
+fn k_life_indirect() { life(true, false); }
+#[kani::proof]
+#[kani::unwind(9)]
+fn k_life_direct_anyidx() { life(false, true); }
+#[kani::proof]
+#[kani::unwind(9)]
+fn k_life_indirect_anyidx() { life(true, true); }
+
+/// two chains outstanding; the device completes them in either order; the driver polls with either token
+fn two(indirect: bool) {
+    let (mut q, _t) = mk_queue::<HN>(indirect, false, false);
+    set_start(&mut q, 0xfffe);
+    let a = [1u8; BUF];
+    let c = [2u8; BUF];
+    let mut b = [0u8; BUF];
+    let ta = unsafe { q.add(&[&a, &c], &mut []) }.unwrap();
+    let tb = unsafe { q.add(&[], &mut [&mut b]) }.unwrap();
+    assert!(ta != tb, "C01: token of an outstanding chain handed out again");
+    let used = q.num_used;
+    let b_first: bool = kani::any();
+    let (la, lb): (u32, u32) = (kani::any(), kani::any());
+    if b_first { dev_complete(&mut q, tb, lb); dev_complete(&mut q, ta, la); } else { dev_complete(&mut q, ta, la); dev_complete(&mut q, tb, lb); }
+    // polling with the token that is *not* next changes nothing
+    let l0 = log_len();
+    let last = q.last_used_idx;
+    if b_first {
+        let r = unsafe { q.pop_used(ta, &[&a, &c], &mut []) };
+        assert!(r == Err(Error::WrongToken), "C03: completions must be consumed in used-ring order");
+    } else {
+        let r = unsafe { q.pop_used(tb, &[], &mut [&mut b]) };
+        assert!(r == Err(Error::WrongToken), "C03: completions must be consumed in used-ring order");
+    }
+    assert!(q.num_used == used && q.last_used_idx == last && log_len() == l0, "C03: wrong-token poll changed state");
+    // now in order
+    if b_first {
+        assert!(unsafe { q.pop_used(tb, &[], &mut [&mut b]) } == Ok(lb), "C03: length of first completion");
+        assert!(unsafe { q.pop_used(ta, &[&a, &c], &mut []) } == Ok(la), "C03: length of second completion");
+    } else {
+        assert!(unsafe { q.pop_used(ta, &[&a, &c], &mut []) } == Ok(la), "C03: length of first completion");
+        assert!(unsafe { q.pop_used(tb, &[], &mut [&mut b]) } == Ok(lb), "C03: length of second completion");
+    }
+    assert!(q.num_used == 0, "C03: descriptors not released");
+    unshares_match(l0);
+    // the freed descriptors are reusable
+    let t3 = unsafe { q.add(&[&a], &mut [&mut b]) }.unwrap();
+    assert!((t3 as usize) < HN);
+}
+#[kani::proof]
+#[kani::unwind(9)]
+fn k_two_direct() { two(false); }
+#[kani::proof]
+#[kani::unwind(9)]
+fn k_two_indirect() { two(true); }
+
+/// C03: refusals have no effect
+#[kani::proof]
+#[kani::unwind(9)]
+fn k_refuse() {
+    let indirect: bool = kani::any();
+    let (mut q, _t) = mk_queue::<HN>(indirect, false, false);
+    let a = [1u8; BUF];
+    let l0 = log_len();
+    assert!(unsafe { q.add(&[], &mut []) } == Err(Error::InvalidParam), "C03: empty submission must be InvalidParam");
+    assert!(unsafe { q.add(&[&a, &a, &a, &a, &a], &mut []) } == Err(Error::QueueFull), "C03: more buffers than descriptors must be QueueFull");
+    assert!(q.num_used == 0 && q.avail_idx == 0 && log_len() == l0, "C03/C04: refused submission had side effects");
+    let t1 = unsafe { q.add(&[&a, &a, &a], &mut []) }.unwrap();
+    let r = unsafe { q.add(&[&a, &a], &mut []) };
+    if indirect { assert!(r.is_ok(), "C03: indirect submission needs one descriptor only"); }
+    else { assert!(r == Err(Error::QueueFull), "C03: insufficient capacity must be QueueFull"); assert!(q.num_used == 3, "C03: refused submission changed the count"); }
+    let _ = t1;
+}
+
+/// C07: the device scribbles over the descriptor table and available ring (which it must not write)
+/// and reports arbitrary used elements; the driver's results must not depend on it.
+fn scribble(indirect: bool) {
+    let (mut q, _t) = mk_queue::<HN>(indirect, false, false);
+    let a = [1u8; BUF];
+    let mut b = [0u8; BUF];
+    let token = unsafe { q.add(&[&a], &mut [&mut b]) }.unwrap();
+    unsafe {
+        let t = q.desc.as_ptr() as *mut [Descriptor; HN];
+        let i: usize = kani::any();
+        kani::assume(i < HN);
+        (*t)[i].addr = kani::any();
+        (*t)[i].len = kani::any();
+        (*t)[i].next = kani::any();
+        (*t)[i].flags = DescFlags::from_bits_retain(kani::any());
+        (*q.avail.as_ptr()).idx.store(kani::any(), Ordering::Release);
+        (*q.avail.as_ptr()).ring[0] = kani::any();
+        if indirect {
+            // the indirect table is device-readable memory as well
+            let tp = q.indirect_lists[token as usize].unwrap().as_ptr() as *mut Descriptor;
+            let j: usize = kani::any();
+            kani::assume(j < 2);
+            (*tp.add(j)).addr = kani::any();
+            (*tp.add(j)).next = kani::any();
+        }
+        // arbitrary used ring
+        let u = q.used.as_ptr();
+        (*u).idx.store(kani::any(), Ordering::Release);
+        (*u).ring[0].id = kani::any();
+        (*u).ring[0].len = kani::any();
+    }
+    let l0 = log_len();
+    let r = unsafe { q.pop_used(token, &[&a], &mut [&mut b]) };
+    match r {
+        Ok(_) => {
+            assert!(q.num_used == 0, "C07: descriptor count depends on device-written memory");
+            let n = unshares_match(l0);
+            assert!(n == if indirect { 3 } else { 2 }, "C07: unshare count depends on device-written memory");
+            // the queue is still usable and consistent
+            let t2 = unsafe { q.add(&[&a], &mut [&mut b]) }.unwrap();
+            assert!((t2 as usize) < HN && q.num_used as usize == if indirect { 1 } else { 2 }, "C07: state corrupted");
+        }
+        Err(e) => {
+            assert!(e == Error::NotReady || e == Error::WrongToken, "C07: unexpected error");
+            assert!(q.num_used as usize == if indirect { 1 } else { 2 } && log_len() == l0, "C07: failed poll changed state");
+        }
+    }
+}
+#[kani::proof]
+#[kani::unwind(9)]
+fn k_scribble_direct() { scribble(false); }
+#[kani::proof]
+#[kani::unwind(9)]
+fn k_scribble_indirect() { scribble(true); }
